@@ -10,6 +10,12 @@ PAIRS_QUICK = [
                   'unic_langid_macros_impl', 'unic_locale_macros_impl'], 'all features'),
 ]
 PAIRS_QUICK += [
+    # one feature on top of the other (both configurations are dumped anyway): code that exists only with likelysubtags (maximize / minimize)
+    # must not change when serde is switched on as well, and vice versa
+    ('K1', 'K3', ['unic_langid_impl', 'unic_locale_impl'], 'serde (and the rest) on top of likelysubtags'),
+    ('K2', 'K3', ['unic_langid_impl'], 'likelysubtags (and the rest) on top of serde'),
+]
+PAIRS_QUICK += [
     # the macros feature on its own (facade crates): must not drag in anything that changes the impl crates
     ('K12', 'K5', ['unic_langid', 'unic_langid_impl'], 'unic-langid macros'),
     ('K13', 'K7', ['unic_locale', 'unic_locale_impl', 'unic_langid_impl'], 'unic-locale macros'),
